@@ -1,4 +1,5 @@
 //verif:overlay mutable/zz_verif_c19_snap.go
+//verif:whitebox
 package mutable
 
 import (
